@@ -27,7 +27,7 @@ OBS2HASH = {}
 HASH2OBS = {}
 UNIS = {"int": [0, 1, 2, 3, 5, 8, 13, 40, 100, -3], "str": ["a", "b", "c", "E1", "N", "10", "zz", "x y"]}
 LAYERS = ["l1", "l2", "work"]
-MDS = [{}, {}, {"a": 1}, {"c": "x", "n": {"k": [1, 2]}}, {"z": None, "a": 2.5}]
+MDS = [{}, {}, {"a": 1}, {"c": "x", "n": {"k": [1, 2]}}, {"z": None, "a": 2.5}, {"path": [1, 2, 3]}, {"tags": ["b", "a"]}]
 
 
 def typed(S):
@@ -283,6 +283,25 @@ def run_case(ctx, rng, idx):
     edits.append(("node-metadata-value", lambda g: g.set_attr_to_node_metadata(n0, "a", "CHANGED")))
     edits.append(("hyperedge-metadata-value", lambda g: g.set_attr_to_edge_metadata(*lib_args(kind, k0, rng), "a", "CHANGED")))
     edits.append(("hypergraph-metadata-value", lambda g: g.set_attr_to_hypergraph_metadata("name", "CHANGED")))
+    # same items in another order inside a list-valued metadata entry = different content
+    def permute_list(md):
+        for k_, v_ in md.items():
+            if isinstance(v_, list) and len(v_) >= 2 and v_ != v_[::-1]:
+                return k_, v_[::-1]
+        return None
+
+    for n_ in C.nodes:
+        pl = permute_list(C.nodes[n_])
+        if pl:
+            edits.append(("node-metadata-list-order", lambda g, n_=n_, pl=pl: g.set_attr_to_node_metadata(n_, pl[0], list(pl[1]))))
+            break
+    for k_ in C.edges:
+        pl = permute_list(C.edges[k_][1])
+        if pl:
+            edits.append(("hyperedge-metadata-list-order", lambda g, k_=k_, pl=pl: g.set_attr_to_edge_metadata(*lib_args(kind, k_, rng), pl[0], list(pl[1]))))
+            break
+    if isinstance(C.hgmd.get("info"), dict):
+        edits.append(("hypergraph-metadata-list-order", lambda g: g.set_attr_to_hypergraph_metadata("info", {"v": [2, 1]})))
     for name, edit in edits:
         try:
             g = construct(rng, kind, C, labels, {"nodes_first": True, "detours": False, "hg_sorted": True})
